@@ -59,6 +59,7 @@ KEY_CONCAT = "C08:generic-layout-masked-index-folded-into-concat:sevm-array-slot
 KEY_NEGGEN = "C08:generic-layout-negative-delta-zero-extended:sevm-array-hash-minus-1-plus-index"
 KEY_DOWN = "C08:generic-layout-unrecognised-hash-constant-plus-index:sevm-array-downward-bucket-crossing"
 KEY_NESTPACK = "C08:solidity-layout-nested-packed-keys-same-total-width-share-cell:sevm-string-string-mapping"
+KEY_NESTPACK_G = "C08:generic-layout-nested-packed-keys-same-total-width-share-cell:sevm-string-string-mapping"
 KEY_TAXIOM = "C08:solidity-layout-transient-emptiness-axiom-constrains-symbolic-persistent-storage:sevm-mapping"
 KEY_PACKED = "C08:packed-key-concrete-preimage-decoded-as-scalar:sevm-bytes1-key"
 
@@ -945,9 +946,14 @@ def nested_packed_cases():
     nm = lambda k1, b1, k2, b2: ("map", k2, ("map", k1, ("lit", 0), b1), b2)
     A, B = nm(("c", 0x61), 1, ("c", 0x006364), 3), nm(("c", 0x6100), 2, ("c", 0x6364), 2)
     As, Bs = nm(("a", 0), 1, ("a", 1), 3), nm(("a", 0), 2, ("a", 1), 2)
-    return [Prog([("sstore", A, ("c", 0x11)), ("sload", B), ("sload", A), ("sstore", B, ("c", 0x22)), ("sload", A), ("sload", B)], 1,
-                 name="nested-packed-keys-concrete"),
-            Prog([("sstore", As, ("c", 0x11)), ("sload", Bs), ("sload", As)], 2, name="nested-packed-keys-symbolic")]
+    # generic layout: the decoded term is key2 ‖ key1 ‖ slot ‖ pads: m["b"]["\\0cd"] and m["db"]["\\0c"] coincide
+    Ag, Bg = nm(("c", 0x62), 1, ("c", 0x006364), 3), nm(("c", 0x6462), 2, ("c", 0x0063), 2)
+    both = KEY_NESTPACK + "@solidity|" + KEY_NESTPACK_G + "@generic"
+    return [(Prog([("sstore", A, ("c", 0x11)), ("sload", B), ("sload", A), ("sstore", B, ("c", 0x22)), ("sload", A), ("sload", B)], 1,
+                  name="nested-packed-keys-concrete"), KEY_NESTPACK + "@solidity"),
+            (Prog([("sstore", Ag, ("c", 0x11)), ("sload", Bg), ("sload", Ag)], 1, name="nested-packed-keys-concrete-generic"),
+             KEY_NESTPACK_G + "@generic"),
+            (Prog([("sstore", As, ("c", 0x11)), ("sload", Bs), ("sload", As)], 2, name="nested-packed-keys-symbolic"), both)]
 
 
 def symbolic_directed():
@@ -1016,8 +1022,7 @@ def core_directed():
     out.append((below_plus_index_case(m10, 2, "hash-minus-2-plus-index-mapping-1-0"), KEY_NEGGEN + "@generic"))
     out.append((Prog([("sstore", ("off", ("const", a2, -(lo2 + 1)), ("a", 0), False), ("c", 0x77)), ("require_eq", ("a", 0), lo2 + 3),
                       ("sload", ("const", a2, 2))], 1, name="hash-minus-bucket-crossing-plus-index-array-slot-2"), KEY_DOWN + "@generic"))
-    for p in nested_packed_cases():
-        out.append((p, KEY_NESTPACK + "@solidity"))
+    out += nested_packed_cases()
     # hash constant with zero low bits + masked index: the sum reaches decode as Concat(hash[255:2], index[1:0])
     s0 = next(s for s in range(1, 100) if slot_of(("arr", ("lit", s)), ()) & 3 == 0)
     arr0 = ("arr", ("lit", s0))
@@ -1401,9 +1406,9 @@ def correspond(ctx):
             stuck = [p.kind for p in sr.paths if p.kind.startswith("stuck:")]
             if prog.name:
                 ctx.count("directed:" + ("mismatch" if mism else "agree"))
-            if expect:
-                ekey, _, elay = expect.partition("@")
-                expect = ekey if (not elay or elay == layout) else None
+            if expect:       # "KEY" | "KEY@layout" | "KEY1@solidity|KEY2@generic"
+                alts = [e.partition("@") for e in expect.split("|")]
+                expect = next((k for k, _, lay in alts if not lay or lay == layout), None)
             elif not prog.name and layout == "generic" and "below-hash+index" in prog.kinds():
                 expect = KEY_NEGGEN     # generated (hash - k) + i in the generic layout: the known zero-extension finding
             if mism:
@@ -1447,6 +1452,9 @@ def correspond(ctx):
             KEY_DOWN: "generic layout: (keccak(2) - k) + i with hash - k below the 2^16 bucket of the hash (not recognised by OffsetMap) is kept as the "
                       "raw 256-bit slot `constant + i`, while the same element written hash + j is decoded structurally: sload(PUSH32 (hash + 2)) "
                       "after sstore((hash - k) + i, 0x77) on the path i == k + 2 returns 0 (EVM 0x77); the solidity layout is stuck on it (fail-safe)",
+            KEY_NESTPACK_G: "generic layout: the decoded location of nested packed-key mappings is key2 ‖ key1 ‖ slot ‖ pads and cells are keyed by the "
+                            "total width only: in mapping(string => mapping(string => uint)) m['b']['\\0cd'] and m['db']['\\0c'] decode to the same "
+                            "802-bit value, so a store to one is read through the other (EVM: different slots, reads 0)",
             KEY_NESTPACK: "solidity layout: StorageData cells are keyed by (slot, num_keys, total key bits) and indexed by the concatenation of the "
                           "keys: in mapping(string => mapping(string => uint)) at slot 0, m['a']['\\0cd'] (key widths 8, 24) and m['a\\0']['cd'] "
                           "(16, 16) get the same cell (0, 4, 544) and the same concatenated key, so a store to one is read through the other "
